@@ -68,7 +68,7 @@ class RequestResponse(Generic[ResponseBodyT]):
         last of which carries an `error_code`.
         """
         callb = self._transport.register_callback(
-            self._response_rec_callback, [self.AWAITED_RESPONSE_CLASS.SERVICE_TYPE]
+            self._frame_received, [self.AWAITED_RESPONSE_CLASS.SERVICE_TYPE]
         )
         try:
             await self._send_request()
@@ -98,6 +98,24 @@ class RequestResponse(Generic[ResponseBodyT]):
     async def _send_request(self) -> None:
         """Build knxipframe (within derived class) and send via transport."""
         self._transport.send(self._create_knxipframe())
+
+    def _frame_received(
+        self, knxipframe: KNXIPFrame, source: HPAI, transport: KNXIPTransport
+    ) -> None:
+        """Handle frames that answer this request. Callback from internal transport."""
+        if not self._answers_request(knxipframe.body):
+            # a late, repeated or foreign response confirms nothing - keep waiting
+            logger.debug(
+                "Ignoring frame not answering the pending %s: %s",
+                self.__class__.__name__,
+                knxipframe,
+            )
+            return
+        self._response_rec_callback(knxipframe, source, transport)
+
+    def _answers_request(self, body: KNXIPBody) -> bool:
+        """Return False for a frame of the awaited type that belongs to another request."""
+        return True
 
     def _response_rec_callback(
         self, knxipframe: KNXIPFrame, source: HPAI, _: KNXIPTransport
